@@ -171,9 +171,21 @@ def run_apply(idx, rng, sh):
             gsecs += [tsec, rsec] if rng.random() < 0.7 else [rsec, tsec]
             groups.append(model_apply(gdata, grel, syms, le, rela, table))
         extra = list(extra) + gsecs
-    img, info = build_rel_image(rng, mach, cls, le, rela, relocs, syms, secdata, etype=rng.choice([1, 1, 1, 3]), extra=extra)
-    want = model_apply(secdata, relocs, syms, le, rela, table)
+    # an executable or shared object may keep its relocation sections (ld --emit-relocs): the linker has applied them, so the
+    # debug sections of anything but a relocatable object are taken as they are
+    etype = rng.choice([1, 1, 1, 3, 2])
+    img, info = build_rel_image(rng, mach, cls, le, rela, relocs, syms, secdata, etype=etype, extra=extra)
+    want = model_apply(secdata, relocs, syms, le, rela, table) if etype == 1 else secdata
     di = ELFFile(io.BytesIO(img)).get_dwarf_info(relocate_dwarf_sections=True)
+    if etype != 1:
+        if comp and (di.debug_str_sec.stream.getvalue(), di.debug_str_offsets_sec.stream.getvalue()) != (sdata, odata):
+            raise Bad('companion sections of a linked file were changed by its kept relocation sections')
+        if di.debug_info_sec.stream.getvalue() != secdata:
+            raise Bad('debug section of a linked file (e_type %d) was relocated again from a kept relocation section' % etype, cls=cls, le=le)
+        sh.held()
+        sh.count('linked_files_with_kept_relocations')
+        sh.sig(('linked', name, etype, cls, le, rela))
+        return
     if groups:
         got_t = di.debug_types_sec.stream.getvalue()
         if got_t not in groups:
